@@ -33,6 +33,8 @@ def gen_script(rng, tier, focus=None):
             steps += [['call', 57] for _ in range(rng.choice([0, 1, 2]))]
         sc = {'stack': stack, 'neps': neps, 'open_delay': rng.choice([0, 30, 300]) if early else 0, 'pool': None,
               'steps': steps, 'aged': False, 'after_close': rng.choice(['down', 'up', 'up'])}
+        if early and not any(st[0] == 'call' for st in steps) and rng.random() < 0.6:
+            sc['close_now'] = True
         if rng.random() < 0.4:
             sc['provider'] = 'zk'
             sc['zk_delay'] = rng.choice([0, 0, 40, 200])
@@ -494,7 +496,8 @@ def run_script(script, comp='e2e'):
                     if held:
                         tags.add('released')
                     rt.drain()
-        rt.drain()
+        if not script.get('close_now'):      # 'close_now': closed before the loop has run anything the build started
+            rt.drain()
         ev('tick', now())
         client.DispatcherClose()
         rt.drain()
